@@ -272,6 +272,81 @@ def handleSpl (kind : String) (rest impl : List String) : Verdict :=
     | _, _ => bad "spl words"
   | _, _ => bad "spl header"
 
+/-! ### rays -/
+
+def pairUp {β : Type} : List β → List (β × β)
+  | a :: b :: rest => (a, b) :: pairUp rest
+  | _ => []
+
+/-- `BezierSpline::from_rays`: the model builds the control points with `fromRays`, the oracle
+with the independent `Spec.hermitePoints`; evaluation is then judged exactly as for `spl`. -/
+def handleRays (kind : String) (rest impl : List String) : Verdict :=
+  match dimOf kind, (rest.getD 0 "").toNat? with
+  | some dim, some n =>
+    let body := rest.drop 1
+    match parseWords (body.take (2 * n * dim)), parseF32Bits? (body.getD (2 * n * dim) "") with
+    | some ws, some tb =>
+      let t := XRat.ofBits tb
+      let xrays := pairUp (chunk dim (xvec ws))
+      let v := Verdict.ok [kindTag kind, "rays", s!"rays{n}"]
+      match fromRays xrays with
+      | .panic _ =>
+        let v := v.addTag "malformed"
+        let rejected := (impl.getD 0 "").startsWith "panic:length_must_be"
+        (v.withDiff (!rejected) "model: from_rays panics (fewer than two rays)").withSpec (n ≥ 2 && isPanic impl) "from-rays-panic" "from_rays panicked on two or more rays"
+      | .ok pts =>
+        if isPanic impl then
+          (v.withDiff true "model does not panic").withSpec (n ≥ 2) "from-rays-panic" s!"from_rays/eval panicked: {impl.getD 0 ""}"
+        else
+        match parseWords impl with
+        | none => v.withDiff true "unparsable implementation output"
+        | some iw =>
+          if iw.length != 2 * dim then v.withDiff true "wrong number of output words" else
+          let ev := iw.take dim
+          let ta := iw.drop dim
+          let m := maxAbs ws
+          let tol := 2 * m / 10000
+          let tolT := 6 * tol
+          let segs := n - 1
+          let nearJoin : Bool := match t with
+            | .fin q =>
+              let x := q * (segs : Rat)
+              0 < q && q < 1 && fracDist x ≤ 2 / 1000000 && 1/2 < x && x < (segs : Rat) - 1/2
+            | _ => false
+          -- correspondence: model spline on the model's control points
+          let d := match splineEval pts t, splineTangent pts t with
+            | .ok me, .ok mt =>
+              (cmpVec "eval" me ev tol).orElse fun _ => cmpVec "tangent" mt ta tolT
+            | .panic msg, _ => some s!"model panics: {msg}"
+            | _, .panic msg => some s!"model panics: {msg}"
+          let v := match d with | some msg => v.withDiff true msg | none => v
+          let v := if nearJoin then v.addTag "near-join" else v
+          -- oracle: the Hermite curve the rays denote
+          let rrays := pairUp (chunk dim (rvec ws))
+          let hp := Spec.Spline.hermitePoints rrays
+          match tClass t with
+          | .nan => v.addTag "t-nan"
+          | .le0 => (v.addTag "t<=0").withSpec (!exactVec (ws.take dim) ev) "from-rays-not-through-point" "t <= 0: not the first ray's point"
+          | .ge1 => (v.addTag "t>=1").withSpec (!exactVec ((ws.drop (2 * (n - 1) * dim)).take dim) ev) "from-rays-not-through-point" "t >= 1: not the last ray's point"
+          | .mid q =>
+            let v := v.addTag "interior"
+            let v := v.withSpec (!nearVec (specCurve hp q) ev tol) "from-rays-not-on-curve" "eval differs from the Hermite cubic through the rays"
+            let x := q * (segs : Rat)
+            let v :=
+              if x == (x.floor : Int) then
+                -- exactly on a knot: the k-th ray's point, and the tangent is three times its direction
+                let k := x.floor.toNat
+                let pk := (ws.drop (2 * k * dim)).take dim
+                let vk := rvec ((ws.drop ((2 * k + 1) * dim)).take dim)
+                let v := (v.addTag "knot-exact").withSpec (!exactVec pk ev) "from-rays-not-through-point" s!"eval at knot {k} is not ray {k}'s point"
+                v.withSpec (!nearVec (vk.map (· * 3)) ta tolT) "from-rays-tangent" s!"tangent at knot {k} is not 3·direction"
+              else v
+            -- no exemption near joins: the curve from_rays builds is C1, the tangent is continuous
+            let tOk := nearVec (specTan hp q) ta tolT
+            v.withSpec (!tOk) "from-rays-tangent" "tangent differs from the derivative of the Hermite segment"
+    | _, _ => bad "rays words"
+  | _, _ => bad "rays header"
+
 /-! ### apx -/
 
 /-- Driver-side `halt`: answers with the implementation's logged decisions, in call order, and
@@ -413,6 +488,7 @@ def handle (case impl : List String) : Verdict :=
   | "bez" :: kind :: rest => handleBez kind rest impl
   | "spl" :: kind :: rest => handleSpl kind rest impl
   | "apx" :: kind :: rest => handleApx kind rest impl
+  | "rays" :: kind :: rest => handleRays kind rest impl
   | ["sstep", t] =>
     match parseF32Bits? t with
     | some tb => handleSstep tb impl
